@@ -1043,4 +1043,113 @@ theorem alphaList_sound : ∀ (ts : List (Term Name)) (e1 e2 : List Int) (ts' : 
           simp [t1, t2, pure, Except.pure]
 end
 
+-- ---------------------------------------------------------------- projections
+section
+variable {β γ : Type} (mk : String → Nat → β) (f : β → γ)
+
+mutual
+/-- the two name→index functions differ only by a map over the binders -/
+theorem specNameTo_natural : ∀ (t : Term Name) (env : List Int),
+    specNameTo (fun s i => f (mk s i)) env t = (specNameTo mk env t).map (mapBinders f)
+  | .var n, env => by
+    simp only [specNameTo]
+    cases resolve env n.unique <;> rfl
+  | .delay t, env => by
+    simp only [specNameTo, bind, Except.bind, specNameTo_natural t env]
+    cases specNameTo mk env t <;> rfl
+  | .force t, env => by
+    simp only [specNameTo, bind, Except.bind, specNameTo_natural t env]
+    cases specNameTo mk env t <;> rfl
+  | .lam m b, env => by
+    simp only [specNameTo, bind, Except.bind, specNameTo_natural b (m.unique :: env)]
+    cases specNameTo mk (m.unique :: env) b <;> rfl
+  | .app g a, env => by
+    simp only [specNameTo, bind, Except.bind, specNameTo_natural g env, specNameTo_natural a env]
+    cases specNameTo mk env g with
+    | error e => rfl
+    | ok d1 => cases specNameTo mk env a <;> rfl
+  | .const _, _ => rfl
+  | .error, _ => rfl
+  | .builtin _, _ => rfl
+  | .constr tag fs, env => by
+    simp only [specNameTo, bind, Except.bind, specNameToList_natural fs env]
+    cases specNameToList mk env fs <;> rfl
+  | .case s bs, env => by
+    simp only [specNameTo, bind, Except.bind, specNameTo_natural s env, specNameToList_natural bs env]
+    cases specNameTo mk env s with
+    | error e => rfl
+    | ok d1 => cases specNameToList mk env bs <;> rfl
+theorem specNameToList_natural : ∀ (ts : List (Term Name)) (env : List Int),
+    specNameToList (fun s i => f (mk s i)) env ts = (specNameToList mk env ts).map (mapBindersList f)
+  | [], _ => rfl
+  | t :: ts, env => by
+    simp only [specNameToList, bind, Except.bind, specNameTo_natural t env, specNameToList_natural ts env]
+    cases specNameTo mk env t with
+    | error e => rfl
+    | ok d1 => cases specNameToList mk env ts <;> rfl
+end
+end
+
+mutual
+theorem zeroBinders_id : ∀ (t : Term DeBruijn), bindersZero id t = true → normBinders (fun _ i => i) id t = t
+  | .var n, _ => rfl
+  | .delay t, h => by simp only [bindersZero] at h; simp [normBinders, zeroBinders_id t h]
+  | .force t, h => by simp only [bindersZero] at h; simp [normBinders, zeroBinders_id t h]
+  | .lam m b, h => by
+    simp only [bindersZero, Bool.and_eq_true, beq_iff_eq, id] at h
+    simp [normBinders, zeroBinders_id b h.2, h.1]
+  | .app f a, h => by
+    simp only [bindersZero, Bool.and_eq_true] at h
+    simp [normBinders, zeroBinders_id f h.1, zeroBinders_id a h.2]
+  | .const _, _ => rfl
+  | .error, _ => rfl
+  | .builtin _, _ => rfl
+  | .constr tag fs, h => by simp only [bindersZero] at h; simp [normBinders, zeroBindersList_id fs h]
+  | .case s bs, h => by
+    simp only [bindersZero, Bool.and_eq_true] at h
+    simp [normBinders, zeroBinders_id s h.1, zeroBindersList_id bs h.2]
+theorem zeroBindersList_id : ∀ (ts : List (Term DeBruijn)), bindersZeroList id ts = true → normBindersList (fun _ i => i) id ts = ts
+  | [], _ => rfl
+  | t :: ts, h => by
+    simp only [bindersZeroList, Bool.and_eq_true] at h
+    simp [normBindersList, zeroBinders_id t h.1, zeroBindersList_id ts h.2]
+end
+
+mutual
+theorem mapBinders_comp {α β γ : Type} (f : α → β) (g : β → γ) : ∀ (t : Term α),
+    mapBinders g (mapBinders f t) = mapBinders (fun x => g (f x)) t
+  | .var n => rfl
+  | .delay t => by simp [mapBinders, mapBinders_comp f g t]
+  | .force t => by simp [mapBinders, mapBinders_comp f g t]
+  | .lam m b => by simp [mapBinders, mapBinders_comp f g b]
+  | .app a b => by simp [mapBinders, mapBinders_comp f g a, mapBinders_comp f g b]
+  | .const _ => rfl
+  | .error => rfl
+  | .builtin _ => rfl
+  | .constr tag fs => by simp [mapBinders, mapBindersList_comp f g fs]
+  | .case s bs => by simp [mapBinders, mapBinders_comp f g s, mapBindersList_comp f g bs]
+theorem mapBindersList_comp {α β γ : Type} (f : α → β) (g : β → γ) : ∀ (ts : List (Term α)),
+    mapBindersList g (mapBindersList f ts) = mapBindersList (fun x => g (f x)) ts
+  | [] => rfl
+  | t :: ts => by simp [mapBindersList, mapBinders_comp f g t, mapBindersList_comp f g ts]
+end
+
+mutual
+theorem mapBinders_id {α : Type} : ∀ (t : Term α), mapBinders (fun x => x) t = t
+  | .var n => rfl
+  | .delay t => by simp [mapBinders, mapBinders_id t]
+  | .force t => by simp [mapBinders, mapBinders_id t]
+  | .lam m b => by simp [mapBinders, mapBinders_id b]
+  | .app a b => by simp [mapBinders, mapBinders_id a, mapBinders_id b]
+  | .const _ => rfl
+  | .error => rfl
+  | .builtin _ => rfl
+  | .constr tag fs => by simp [mapBinders, mapBindersList_id fs]
+  | .case s bs => by simp [mapBinders, mapBinders_id s, mapBindersList_id bs]
+theorem mapBindersList_id {α : Type} : ∀ (ts : List (Term α)), mapBindersList (fun x => x) ts = ts
+  | [] => rfl
+  | t :: ts => by simp [mapBindersList, mapBinders_id t, mapBindersList_id ts]
+end
+
+
 end AikenVerif.Db
